@@ -62,6 +62,56 @@ def check(tier: str) -> Result:
     # ---- R6: movement rules: a move that would leave the grid is recognised exactly at the border (rules/bounds_rules.py)
     from . import bounds_rules
     n_bd = bounds_rules.add_obligations(res, tree, "C09.R6", scope="all")
+    # ---- R7: documented termination: "the episode ends when no action is legal any more" (Game2048, Sudoku, BinPack,
+    # Knapsack, Tetris, Maze -- frozen instance table confirmed by reading the docstrings; DESIGN.md Appendix A)
+    from ..normal import conjuncts, disjuncts, negand, strip_cast, ext_name
+    from ..terms import uncopy
+    from .common import last_conditions, environments
+    NO_ACTION_ENDS = ("Game2048", "Sudoku", "BinPack", "Knapsack", "Tetris", "Maze")
+    n_term = 0
+
+    def any_of(t, masks):
+        """True when t is any(M) / M.any() / jnp.sum(M) > 0 for one of the mask nodes"""
+        t = uncopy(strip_cast(t))
+        if ext_name(t) in ("jax.numpy.any", "numpy.any", "builtins.any") and t.args[1] and uncopy(strip_cast(t.args[1][0])) in masks:
+            return True
+        if t.kind == "call" and t.args[0].kind == "attr" and t.args[0].args[1] == "any" and uncopy(strip_cast(t.args[0].args[0])) in masks:
+            return True
+        return False
+
+    for ea in analyses(tree):
+        if ea.cls.name not in NO_ACTION_ENDS:
+            continue
+        vfg = ea.vfg
+        site, fn = env_site(ea, "step")
+        masks = set()
+        obs = vfg.mk_attr(ea.step_ts, "observation")
+        for src_ in (vfg.mk_attr(obs, "action_mask"), vfg.mk_attr(ea.step_state, "action_mask")):
+            for l, _ in leaves(src_):
+                l = uncopy(strip_cast(l))
+                if l.kind not in ("opaque",) and not (l.kind == "attr" and l.args[1] == "action_mask" and l.args[0] is ea.step_state):
+                    masks.add(l)
+        conds = last_conditions(ea)
+        verdict, why = False, f"no disjunct of the LAST predicate depends on the new action mask: {[txt(c, 3, 50) for c in conds]}"
+        for d in conds:
+            if not any(contains(d, m) for m in masks):
+                continue
+            inner = negand(d)
+            if inner is not None and any_of(inner, masks):
+                verdict, why = True, f"disjunct {txt(d, 3, 70)}"
+                break
+            if any_of(d, masks):
+                verdict, why = False, f"disjunct {txt(d, 3, 70)} ends the episode while actions ARE available (negation lost)"
+                break
+            cj = conjuncts(d)
+            if len(cj) > 1 and any((negand(c) is not None and any_of(negand(c), masks)) for c in cj):
+                verdict, why = False, f"disjunct {txt(d, 3, 90)}: mask exhaustion ends the episode only together with another condition"
+                break
+            verdict, why = None, f"disjunct {txt(d, 3, 70)} depends on the mask in a form that is not compared"
+        res.add("C09.R7", site, fn, "the episode ends when no action is legal any more (~any(new action mask) is a LAST disjunct)", verdict, why)
+        n_term += 1
+    if n_term < len(NO_ACTION_ENDS):
+        raise AnalysisError(f"only {n_term} of the {len(NO_ACTION_ENDS)} mask-exhaustion environments found")
     res.analysed = {"table_pairings": n, "axis_typed_sites": n_axis, "mask_vs_step_validity": n_b}
     res.assumptions = ["direction names in the code carry their usual meaning (up = previous row, left = previous column)",
                        "PacMan is excluded from the naming convention (its x/y naming is transposed); only sibling agreement is checked there"]
